@@ -41,7 +41,30 @@ CLAIMED = {
    technique='Coq proof over a model regenerated from source by a translator; differential run of the generated functions; Spec-decoded falsifier',
    design='6/C07'),
 }
+NA_REASON = {}   # property id -> reason, for properties not claimed
+
+
+def collect():
+    """props modules may carry their own CLAIM = dict(text, note, technique, design[, category])."""
+    import importlib, sys
+    sys.path.insert(0, os.path.join(VERIF, 'tools'))
+    for pid in ALL:
+        if os.path.exists(os.path.join(VERIF, 'tools', 'props', pid + '.py')):
+            try:
+                mod = importlib.import_module('props.' + pid)
+            except Exception as e:
+                print('cannot import props.' + pid, e)
+                continue
+            c = getattr(mod, 'CLAIM', None)
+            if c:
+                CLAIMED[pid] = c
+            if getattr(mod, 'NOT_APPLICABLE', None):
+                NA_REASON[pid] = mod.NOT_APPLICABLE
+                CLAIMED.pop(pid, None)
+
+
 def main():
+    collect()
     checks = []
     for pid in ALL:
         if pid not in CLAIMED: continue
@@ -53,11 +76,11 @@ def main():
             'evidence_file': 'evidence/{}.json'.format(pid),
             'replay_cmd_template': '/venv/bin/python tools/check.py replay {path}',
             'engine': c.get('engine', 'coq+py2coq'),
-            'level_claimed': {'category': 'proof', 'text': c['text'], 'design_ref': 'DESIGN.md section ' + c['design']},
+            'level_claimed': {'category': c.get('category', 'proof'), 'text': c['text'], 'design_ref': 'DESIGN.md section ' + c['design']},
             'level_note': c['note'],
             'technique': c['technique'],
         })
-    na = [{'property_id': p, 'reason': 'machinery for this property is not built yet (work in progress; see DESIGN.md section 6 for the plan)'}
+    na = [{'property_id': p, 'reason': NA_REASON.get(p) or 'machinery for this property is not built yet (work in progress; see DESIGN.md section 6 for the plan)'}
           for p in ALL if p not in CLAIMED]
     m = {
         'version': 1,
